@@ -394,7 +394,7 @@ class RSocketBase(RSocket, RSocketInternal):
             next_fragment = next_frame_source.get_next_fragment(transport.requires_length_header())
 
             if next_fragment.flags_follows:
-                self._send_queue.put_nowait(self._send_queue.get_nowait())  # cycle to next frame source in queue
+                self._requeue_partially_sent_frame(self._send_queue.get_nowait())  # cycle to next frame source in queue
             else:
                 next_frame_source.get_next_fragment(
                     transport.requires_length_header())  # workaround to clean-up generator.
@@ -405,6 +405,24 @@ class RSocketBase(RSocket, RSocketInternal):
         else:
             self._send_queue.get_nowait()
             yield next_frame_source
+
+    def _requeue_partially_sent_frame(self, frame_source: Frame):
+        # Frames of other streams may be sent between the fragments of a frame. Frames of the same stream
+        # must wait until its last fragment was sent, so re-queue it in front of the first of them.
+        items = []
+        while not self._send_queue.empty():
+            items.append(self._send_queue.get_nowait())
+
+        position = len(items)
+        for index, item in enumerate(items):
+            if item.stream_id == frame_source.stream_id:
+                position = index
+                break
+
+        items.insert(position, frame_source)
+
+        for item in items:
+            self._send_queue.put_nowait(item)
 
     async def _sender(self):
         try:
